@@ -514,11 +514,14 @@ func (txn *Txn) rollback() {
 func (txn *Txn) commit() {
 	defer txn.reset()
 
-	// Mark the dirty chunks from the updates
-	for _, u := range txn.updates {
-		u.RangeChunks(func(chunk commit.Chunk) {
-			txn.dirty.Set(uint32(chunk))
-		})
+	// Mark the dirty chunks from the updates, unless the chunk to apply was set explicitly (a
+	// replayed commit is for one chunk only, even if its buffers also carry other chunks)
+	if _, explicit := txn.dirty.Min(); !explicit {
+		for _, u := range txn.updates {
+			u.RangeChunks(func(chunk commit.Chunk) {
+				txn.dirty.Set(uint32(chunk))
+			})
+		}
 	}
 
 	// Grow the size of the fill list
